@@ -163,6 +163,55 @@ pub fn tie_match(out: &mut Out, p: &Pattern<SupportLang>, t: &N, what: &str) -> 
   (matched, len)
 }
 
+
+/// the documented pre-processing, written independently (regex-free, over a char vector): a run of sigils is
+/// replaced by the expando character iff it introduces a meta variable (next char upper-case or `_`) or is `$$$`
+fn my_pre_process(expando: char, q: &str) -> String {
+  let cs: Vec<char> = q.chars().collect();
+  let mut out = String::new();
+  let mut i = 0;
+  while i < cs.len() {
+    if cs[i] != '$' {
+      out.push(cs[i]);
+      i += 1;
+      continue;
+    }
+    let mut j = i;
+    while j < cs.len() && cs[j] == '$' {
+      j += 1;
+    }
+    let n = j - i;
+    let intro = n == 3 || (j < cs.len() && (cs[j].is_ascii_uppercase() || cs[j] == '_'));
+    for _ in 0..n {
+      out.push(if intro { expando } else { '$' });
+    }
+    i = j;
+  }
+  out
+}
+
+/// the pattern tree the holed text SHOULD give: parse the independently pre-processed text and take the single node
+fn expected_pattern(lang: SupportLang, text: &str) -> Option<Pattern<SupportLang>> {
+  use ast_grep_core::Language;
+  let pre = my_pre_process(lang.expando_char(), text);
+  let g = lang.ast_grep(&pre);
+  let is_single = |n: &N| {
+    let cnt = n.children().count();
+    cnt == 1 || (cnt == 2 && n.child(1).map(|c| c.get_ts_node().is_missing() || c.kind().is_empty()).unwrap_or(false))
+  };
+  let mut n = g.root();
+  // a pattern must be ONE node: several top-level nodes are rejected (documented restriction, not a defect)
+  if !is_single(&n) {
+    return None;
+  }
+  while is_single(&n) {
+    n = n.child(0)?;
+  }
+  // the conversion reads the node, it does not keep a borrow
+  let r = catch_unwind(AssertUnwindSafe(|| Pattern::from(n.clone())));
+  r.ok()
+}
+
 pub fn run_c02(o: &Opts) {
   let mut out = Out::new(&o.out);
   let mut rng = Rng::new(o.seed ^ 0xc02);
@@ -184,20 +233,38 @@ pub fn run_c02(o: &Opts) {
       if nodes.is_empty() {
         continue;
       }
+      // nodes whose text has a multi-byte character in front of a named descendant: a hole behind non-ASCII text
+      let wide: Vec<N> = nodes.iter().filter(|n| !n.text().is_ascii() && n.children().count() >= 2 && subtree_size(n) <= 120).cloned().collect();
       for k in 0..per_src {
-        let t = rng.pick(&nodes).clone();
+        let t = if k % 5 == 1 && !wide.is_empty() { rng.pick(&wide).clone() } else { rng.pick(&nodes).clone() };
         if subtree_size(&t) > 120 {
           continue;
         }
+        if !t.text().is_ascii() {
+          out.count("node:has-multi-byte-text");
+        }
         let cut = if k % 4 == 0 { Cut { text: t.text().to_string(), holes: vec![], run: None } } else { make_cut(&t, &mut rng, k % 3 == 0) };
+        // the precondition "the pattern parses to the same tree shape", decided independently of the implementation's
+        // own pre-processing: on the tree-sitter parse of the text pre-processed as documented
+        let precondition_holds = expected_pattern(lang, &cut.text).map(|ep| is_cut(&ep.node, &t, &cut)).unwrap_or(false);
         let p0 = match catch_unwind(AssertUnwindSafe(|| Pattern::try_new(&cut.text, lang))) {
           Ok(Ok(p)) => p,
           _ => {
             parse_fail += 1;
             out.count(&format!("{lang}:pattern-rejected"));
+            if precondition_holds {
+              out.checked();
+              out.oracle_fail("", &format!("{lang}: the pattern {:?} cut from {:?} parses to the shape of the code when pre-processed as documented, but the implementation rejects it", cut.text, t.text()),
+                json!({"stream": "c02-preprocess", "lang": lang.to_string(), "pattern": cut.text, "code": t.text()}));
+            }
             continue;
           }
         };
+        if !is_cut(&p0.node, &t, &cut) && precondition_holds {
+          out.checked();
+          out.oracle_fail("", &format!("{lang}: the pattern {:?} cut from {:?} parses to the shape of the code when pre-processed as documented, but the implementation builds a different pattern tree ({:?})", cut.text, t.text(), p0.node),
+            json!({"stream": "c02-preprocess", "lang": lang.to_string(), "pattern": cut.text, "code": t.text()}));
+        }
         if !is_cut(&p0.node, &t, &cut) {
           shape_differs += 1;
           out.count(&format!("{lang}:shape-differs(skipped)"));
